@@ -84,7 +84,8 @@ def run(ctx):
                           "rank ValueError raised for a failure injected at %s (only start-up / iteration 0 may raise it)" % (tag,))
                 return "rank-ValueError"
             c.check()
-            c.fail(key + ":escaped-" + type(exc).__name__, "failure injected at %s call (tag %s) escaped as %s: %s" %
+            c.fail(key + ":escaped-" + ("domain-error" if (isinstance(exc, ValueError) and "domain error" in str(exc)) else type(exc).__name__),
+                   "failure injected at %s call (tag %s) escaped as %s: %s" %
                    (site, tag, type(exc).__name__, exc))
             return "escaped"
         st = sol.get("status")
